@@ -323,9 +323,13 @@ func (s *MemoryBackend) read(ctx context.Context, store string, filter storage.R
 		}
 	}
 
-	if from <= len(matches) {
-		matches = matches[from:]
+	if from < 0 {
+		return nil, storage.ErrInvalidContinuationToken
 	}
+
+	// An offset beyond the end yields an empty last page, it must not restart from the first one.
+	from = min(from, len(matches))
+	matches = matches[from:]
 
 	to := 0 // fetch everything
 	if options != nil {
